@@ -1604,3 +1604,63 @@ def bitsfixed(repo):
         res.add(f"{m.rel}|{f.name}|limit", f"{f.name} no longer compares the size with 64", m.rel, f.node.lineno, f.name)
     res.analysed = [m.rel]
     return res
+
+
+def docwords(repo):
+    """R-DOCWORDS (C14): "no reserved word is used as a name ... as documented".  The words the compiler rejects come
+    from the data file compiler/front_end/reserved_words; the reference users read is the keyword list at the end of
+    doc/grammar.md.  Both are source artefacts, so their agreement is a set comparison: every word the checker loads
+    *and that could be spelled as a name* (its first token, by the tokenizer's own pattern tables, is a SnakeWord,
+    CamelWord or ShoutyWord -- `_Bool` or `I` can never be names) appears in the documented list, every documented word
+    is loaded, and the announced count equals both.  (The
+    repository's docs_are_up_to_date_test only compares the document with the generator's output, so a generator that
+    drops words passes it.)"""
+    import os, re as _re
+    res = RuleResult("R-DOCWORDS")
+    try:
+        wtext = repo.read("compiler/front_end/reserved_words")
+        doc = repo.read("doc/grammar.md")
+    except OSError:
+        raise AnalysisError("reserved_words or doc/grammar.md is missing")
+    words = set()
+    for line in wtext.splitlines():
+        stripped = line.partition("#")[0].strip()
+        if not stripped or stripped.startswith("--"):
+            continue
+        words.add(stripped)
+    from sa import grammar as _G, toksim as _TS
+    lits, regs = _G.tokenizer_tables(repo)
+    nameable = set()
+    for w in words:
+        try:
+            toks = _TS.tokenize(w, lits, regs)
+        except _TS.TokErr:
+            continue
+        if toks and toks[0][0] in ("SnakeWord", "CamelWord", "ShoutyWord") and toks[0][1] == w:
+            nameable.add(w)
+    words = nameable
+    mm = _re.search(r"The following (\d+) keywords are reserved[^\n]*\n[^\n]*\n\n(.*?)(?:\n\n|\Z)", doc, _re.S)
+    if not mm:
+        raise AnalysisError("doc/grammar.md: the reserved keyword paragraph was not found")
+    announced = int(mm.group(1))
+    documented = set(_re.findall(r"`([^`\s]+)`", mm.group(2)))
+    line_of = doc[:mm.start()].count("\n") + 1
+    res.instances = len(words)
+    if len(words) < 400:
+        raise AnalysisError(f"only {len(words)} reserved words parsed")
+    missing = sorted(words - documented)
+    extra = sorted(documented - words)
+    if missing:
+        res.add("doc/grammar.md|reserved-words|missing",
+                f"{len(missing)} word(s) rejected as names are absent from the documented list: {', '.join(missing[:8])}"
+                + (" ..." if len(missing) > 8 else ""), "doc/grammar.md", line_of, "reserved keywords")
+    if extra:
+        res.add("doc/grammar.md|reserved-words|extra",
+                f"{len(extra)} documented reserved word(s) are not in compiler/front_end/reserved_words: {', '.join(extra[:8])}",
+                "doc/grammar.md", line_of, "reserved keywords")
+    if announced != len(words):
+        res.add("doc/grammar.md|reserved-words|count",
+                f"the document announces {announced} reserved keywords; the checker loads {len(words)}",
+                "doc/grammar.md", line_of, "reserved keywords")
+    res.analysed = ["compiler/front_end/reserved_words", "doc/grammar.md"]
+    return res
